@@ -2636,6 +2636,77 @@ fn compute_fees_saturating(amount_msat: u64, channel_fees: RoutingFees) -> u64 {
 		.saturating_add(channel_fees.base_msat as u64)
 }
 
+/// Add-only accessors for the external verification harness (`verif_hooks` feature): the private
+/// fee helpers, and [`PaymentPath::update_value_and_recompute_fees`] run on a synthetic path whose
+/// hops are private-hop candidates with the given `(base_msat, proportional_millionths,
+/// htlc_minimum_msat)`. Returns the resulting per-hop `fee_msat`s and the function's return value.
+#[cfg(feature = "verif_hooks")]
+pub(crate) mod verif {
+	use super::*;
+
+	pub(crate) fn compute_fees_saturating(amount_msat: u64, channel_fees: RoutingFees) -> u64 {
+		super::compute_fees_saturating(amount_msat, channel_fees)
+	}
+
+	pub(crate) fn max_htlc_from_capacity(
+		capacity: EffectiveCapacity, max_channel_saturation_power_of_half: u8,
+	) -> u64 {
+		super::max_htlc_from_capacity(capacity, max_channel_saturation_power_of_half)
+	}
+
+	pub(crate) fn update_value_and_recompute_fees(
+		hops: &[(u32, u32, u64)], value_msat: u64,
+	) -> (Vec<u64>, u64) {
+		let pk = PublicKey::from_slice(&[2; 33]).unwrap();
+		let node_id = NodeId::from_pubkey(&pk);
+		let hints: Vec<RouteHintHop> = hops
+			.iter()
+			.map(|(base_msat, proportional_millionths, htlc_minimum_msat)| RouteHintHop {
+				src_node_id: pk,
+				short_channel_id: 0,
+				fees: RoutingFees {
+					base_msat: *base_msat,
+					proportional_millionths: *proportional_millionths,
+				},
+				cltv_expiry_delta: 0,
+				htlc_minimum_msat: Some(*htlc_minimum_msat),
+				htlc_maximum_msat: None,
+			})
+			.collect();
+		let mut path = PaymentPath {
+			hops: hints
+				.iter()
+				.map(|hint| {
+					let candidate = CandidateRouteHop::PrivateHop(PrivateHopCandidate {
+						hint,
+						target_node_id: &node_id,
+						source_node_counter: 0,
+						target_node_counter: 0,
+					});
+					let hop = PathBuildingHop {
+						candidate,
+						was_processed: false,
+						#[cfg(all(not(ldk_bench), any(test, fuzzing)))]
+						best_path_from_hop_selected: false,
+						is_first_hop_target: false,
+						is_last_hop_target: false,
+						total_fee_msat: 0,
+						path_htlc_minimum_msat: 0,
+						path_penalty_msat: 0,
+						fee_msat: 0,
+						next_hops_fee_msat: 0,
+						hop_use_fee_msat: 0,
+						value_contribution_msat: 0,
+					};
+					(hop, NodeFeatures::empty())
+				})
+				.collect(),
+		};
+		let ret = path.update_value_and_recompute_fees(value_msat);
+		(path.hops.iter().map(|h| h.0.fee_msat).collect(), ret)
+	}
+}
+
 /// The default `features` we assume for a node in a route, when no `features` are known about that
 /// specific node.
 ///
